@@ -479,3 +479,63 @@ pub fn candsearch(n: usize, start: u64, count: u64, outfile: &str) {
         h.join().unwrap();
     }
 }
+
+/// `vh stalesearch out`: among the corpus seeds with a would-be-emitted zero-NTT candidate, those whose zero-NTT
+/// candidate comes directly after a candidate that reached the solver and was dropped there (unsolvable, or F, G out of
+/// range): state carried from one candidate to the next in the retry loop of ntru_gen shows exactly on these
+pub fn stalesearch(outfile: &str) {
+    let path = format!("{}/../corpus/special_seeds.txt", env!("CARGO_MANIFEST_DIR"));
+    let mut todo: Vec<(usize, u64)> = vec![];
+    for l in std::fs::read_to_string(&path).unwrap().lines() {
+        let t: Vec<&str> = l.split_whitespace().collect();
+        if t.len() >= 5 && t[2] == "ntt_zero" && l.contains("would_emit=true") {
+            todo.push((t[0].parse().unwrap(), t[1].parse().unwrap()));
+        }
+    }
+    let todo = Arc::new(todo);
+    let next = Arc::new(AtomicU64::new(0));
+    let out = Arc::new(Mutex::new(std::io::BufWriter::new(std::fs::File::create(outfile).unwrap())));
+    let mut hs = vec![];
+    for _ in 0..16 {
+        let (next, out, todo) = (next.clone(), out.clone(), todo.clone());
+        hs.push(std::thread::Builder::new().stack_size(64 << 20).spawn(move || loop {
+            let k = next.fetch_add(1, Ordering::SeqCst) as usize;
+            if k >= todo.len() {
+                break;
+            }
+            let (n, i) = todo[k];
+            vh::trace_start(false);
+            let r = std::panic::catch_unwind(|| {
+                if n == 512 {
+                    let _ = falcon512::SecretKey::verif_gen_b0(special_seed(i));
+                } else {
+                    let _ = falcon1024::SecretKey::verif_gen_b0(special_seed(i));
+                }
+            });
+            let ev = vh::trace_take();
+            if r.is_err() {
+                continue;
+            }
+            let mut cand = 0usize;
+            let mut prev_reject: &str = "";
+            let mut this_reject: &str = "";
+            for e in ev.iter() {
+                if e.tag == "keygen.drawn" {
+                    cand += 1;
+                    prev_reject = this_reject;
+                    this_reject = "";
+                } else if e.tag.starts_with("keygen.reject.") {
+                    this_reject = e.tag;
+                    if e.tag == "keygen.reject.not_invertible" && (prev_reject == "keygen.reject.unsolvable" || prev_reject == "keygen.reject.range_capital") {
+                        let mut o = out.lock().unwrap();
+                        writeln!(o, "{n} {i} ntt_zero_after_solve cand={cand} prev={}", prev_reject.trim_start_matches("keygen.reject.")).unwrap();
+                        o.flush().unwrap();
+                    }
+                }
+            }
+        }).unwrap());
+    }
+    for h in hs {
+        h.join().unwrap();
+    }
+}
